@@ -110,7 +110,8 @@ type SimConn struct {
 	wmu        sync.Mutex
 	nwrites    int
 	splitIx    int
-	lateWrites int    // Write calls after this endpoint was closed
+	lateWrites int // Write calls after this endpoint was closed
+	wdeadline  int64
 	closeHook  func() // called once, on the first Close of this endpoint
 	closeOnce  sync.Once
 
@@ -245,6 +246,10 @@ func (h *pipeHalf) ensureWaker(now, target int64) {
 
 func (c *SimConn) Write(b []byte) (int, error) {
 	c.wmu.Lock()
+	if c.wdeadline != 0 && time.Now().UnixNano() >= c.wdeadline {
+		c.wmu.Unlock()
+		return 0, &net.OpError{Op: "write", Net: "sim", Err: os.ErrDeadlineExceeded}
+	}
 	c.nwrites++
 	nw := c.nwrites
 	var cuts []int
@@ -371,6 +376,7 @@ func (c *SimConn) LocalAddr() net.Addr  { return c.local }
 func (c *SimConn) RemoteAddr() net.Addr { return c.remote }
 
 func (c *SimConn) SetDeadline(t time.Time) error {
+	c.SetWriteDeadline(t)
 	return c.SetReadDeadline(t)
 }
 
@@ -391,8 +397,18 @@ func (c *SimConn) SetReadDeadline(t time.Time) error {
 	return nil
 }
 
-// Writes never block in the simulation, so a write deadline has no effect.
-func (c *SimConn) SetWriteDeadline(t time.Time) error { return nil }
+// Writes never block in the simulation, but like a real connection a Write
+// after the write deadline has passed fails with a timeout.
+func (c *SimConn) SetWriteDeadline(t time.Time) error {
+	c.wmu.Lock()
+	if t.IsZero() {
+		c.wdeadline = 0
+	} else {
+		c.wdeadline = t.UnixNano()
+	}
+	c.wmu.Unlock()
+	return nil
+}
 
 // HalfRecord is the recorded traffic of one direction after a run.
 type HalfRecord struct {
